@@ -512,6 +512,21 @@ impl Runner {
                 let n: usize = w[3].parse().unwrap();
                 vec_lerp(w[1], w[2], n, &w[4..4 + n], &w[4 + n..4 + 2 * n], fb(w[4 + 2 * n]))
             }
+            "quat" => {
+                // `impl Lerp for Quat` (delegates to glam's Quat::lerp)
+                let g = |i: usize| fb(w[i]);
+                let a = glam::Quat::from_xyzw(g(1), g(2), g(3), g(4));
+                let c = glam::Quat::from_xyzw(g(5), g(6), g(7), g(8));
+                let r = Lerp::lerp(&a, &c, g(9));
+                r.to_array().iter().map(|v| fbits(*v).to_string()).collect::<Vec<_>>().join(" ")
+            }
+            "dquat" => {
+                let g = |i: usize| f64::from_bits(w[i].parse().unwrap());
+                let a = glam::DQuat::from_xyzw(g(1), g(2), g(3), g(4));
+                let c = glam::DQuat::from_xyzw(g(5), g(6), g(7), g(8));
+                let r = Lerp::lerp(&a, &c, fb(w[9]));
+                r.to_array().iter().map(|v| (if v.is_nan() { f64::NAN.to_bits() & !(1u64 << 63) } else { v.to_bits() }).to_string()).collect::<Vec<_>>().join(" ")
+            }
             "ease" => {
                 let e = parse_easing(w[1]);
                 w[2..].iter().map(|t| fbits(e.calc(fb(t))).to_string()).collect::<Vec<_>>().join(" ")
